@@ -14,7 +14,13 @@ RULE = ("queues of 1-6 generated MRT files (TABLE_DUMP_V2 peer index table + RIB
         "hold UPDATE octets from C04's proved encoder (IPv4/IPv6 unicast/multicast, MP_REACH / MP_UNREACH / conventional fields, End-of-RIB "
         "forms, unknown AFI/SAFIs) and malformed variants of them - above all UPDATEs that are malformed in exactly one half (the last NLRI "
         "inside MP_UNREACH_NLRI spoilt next to good conventional NLRI or a good MP_REACH_NLRI; the last NLRI inside MP_REACH_NLRI spoilt next "
-        "to good withdrawn routes or a good MP_UNREACH_NLRI), C04's spoilt tails and mutations; a case is non-trivial when a query "
+        "to good withdrawn routes or a good MP_UNREACH_NLRI), C04's spoilt tails and mutations; in one case of five the queue holds REPEATS: "
+        "a dump or update file comes again - the same path (request spelled plain, ./path, dir/../dir/name, dir//name) or the same octets under "
+        "another name - behind nothing, a file that withdraws its routes, changes their attributes, takes its peer down (Established->Idle), an "
+        "unrelated or unreadable file, in one batch of concurrent requests or one request after the other, or files of EQUAL NAME lie in "
+        "update_path, a/, b/, a/b/, b/a/ with different content and are requested in turn (which routes arrive says which file was imported), a "
+        "path is written again and queued; in a share of all cases the first batch is the unit's configured `filename` list, queued at start-up, "
+        "instead of requests to the HTTP endpoint; a case is non-trivial when a query "
         "returns at least one entry; distinct = distinct case text")
 TRUSTED_BASE = [
     "Coq 8.16.1 kernel (coqc; coqchk in thorough); no native_compute",
@@ -41,6 +47,12 @@ ASSUMPTIONS = [
     "HashMap iteration order is arbitrary: where a lookup has several candidate ids the model lists all of them and the later RIB answers for that peer are not compared",
     "ids are named by the peer the register holds for them and, when a peer has several ids, by their rank in registration order",
     "files of one batch are enqueued by concurrent HTTP requests polled in file order; the unit consumes its queue sequentially",
+    "a path that is written again is replaced (write aside, rename) only after the entries already queued under it have been imported: the queue "
+    "holds names and the unit opens a file when its turn comes, so what an entry imports is what its path holds then (MrtModel.resolve over the "
+    "tree as the driver wrote it); the tree is not changed between an entry's request and its import",
+    "the configured `filename` list is queued by the hook verif_start exactly as MrtFileIn::run does (before the queue loop starts, no enqueuer); "
+    "the RIB's link is connected to the gate before the unit starts, as the application's wait point guarantees; the end of the start-up list is "
+    "awaited through one more entry (a path that does not exist) put on the queue behind it",
 ]
 
 NPEERS = 8
@@ -185,14 +197,202 @@ def gen_case(rng, kind, raw=None):
     return ";".join(ops)
 
 
+# ---- queues with repeats, trees with equal names (the queue holds NAMES; every entry is imported when its turn comes)
+REPEAT_TAGS = {}    # case text -> what the generator put into it (for the evidence's distribution)
+SUBS = ["-", "a", "b", "a.b", "b.a"]
+
+
+def barrier_or_not(rng, ops, qs):
+    """between two files: nothing (same batch: the requests are in flight together), a barrier, or queries"""
+    r = rng.below(100)
+    if r < 40:
+        return
+    if r < 55:
+        ops.append("W")
+    else:
+        ops.extend(qs if rng.chance(70) else qs[:1])
+
+
+def again(rng, ops, k, tags):
+    """file k of the case once more: the same path (any spelling of the request), the same octets under another name"""
+    if rng.chance(60):
+        sp = rng.weighted([(0, 55), (1, 15), (2, 15), (3, 15)])
+        ops.append("R %d %d" % (k, sp) if sp or rng.chance(50) else "R %d" % k)
+        tags.add("again:same-path")
+    else:
+        ops.append("C %d" % k)
+        tags.add("again:same-content-other-name")
+
+
+def gen_repeat(rng, raw=None):
+    ops, tags = [], set()
+    nfiles = 0
+    boot = rng.chance(30)
+    fam = rng.below(2)
+    p = rng.below(NPEERS)
+    pfxs = sorted({rng.below(6) for _ in range(rng.range(1, 2))})
+    plist = ",".join(map(str, pfxs))
+    qs = ["Q %d %d" % (fam, x) for x in pfxs]
+    place = (lambda: " %s %d" % (rng.choice(SUBS), rng.below(2))) if rng.chance(30) else (lambda: "")
+    # something in front, sometimes
+    if rng.chance(30):
+        ops += update_file(rng, [p, rng.below(NPEERS)], n=rng.range(1, 3), raw=raw)
+        nfiles += 1
+    dump = rng.chance(30)
+    a1 = rng.below(10)
+    if dump:
+        others = [q for q in range(NPEERS) if q != p]
+        peers = [p] + ([rng.choice(others)] if rng.chance(40) else [])
+        ops += ["F %s%s" % (rng.choice("pgb"), place()), "I " + ",".join(map(str, peers))]
+        ops += ["T %d %d %s" % (fam, x, ",".join("%d:%d" % (i, (a1 + i) % 10) for i in range(len(peers)))) for x in pfxs]
+        tags.add("repeated:dump-file")
+    else:
+        ops.append("F %s%s" % (rng.choice("pgb"), place()))
+        ops.append("M %d %d %d %d %s %d -" % (variant(rng, p), p, fam, a1, plist, fam))
+        if rng.chance(30):
+            ops += update_file(rng, [p], n=rng.range(1, 2))[1:]
+        tags.add("repeated:update-file")
+    first = nfiles
+    nfiles += 1
+    if boot and rng.chance(50):
+        ops.append("B")
+        tags.add("configured-filename-list")
+        boot = False
+    else:
+        barrier_or_not(rng, ops, qs)
+    # what stands between the file and its return
+    for _ in range(rng.weighted([(0, 15), (1, 65), (2, 20)])):
+        k = rng.weighted([("withdraw", 35), ("attrs", 20), ("down", 20), ("other", 15), ("bad", 5), ("self", 5)])
+        tags.add("between:" + k)
+        if k == "withdraw":
+            ops += ["F %s%s" % (rng.choice("pgb"), place()), "M %d %d %d 0 - %d %s" % (variant(rng, p), p, fam, fam, plist)]
+        elif k == "attrs":
+            ops += ["F %s%s" % (rng.choice("pgb"), place()), "M %d %d %d %d %s %d -" % (variant(rng, p), p, fam, (a1 + 1 + rng.below(8)) % 10, plist, fam)]
+        elif k == "down":
+            ops += ["F %s%s" % (rng.choice("pgb"), place()), "S %d %d 6 1" % (variant(rng, p), p)]
+        elif k == "other":
+            ops += update_file(rng, [rng.below(NPEERS)], n=rng.range(1, 3), raw=raw)
+        elif k == "bad":
+            ops.append("X " + rng.choice("mgbd"))
+        else:
+            again(rng, ops, first, tags)
+            barrier_or_not(rng, ops, qs)
+            continue
+        nfiles += 1
+        if boot and rng.chance(60):
+            ops.append("B")
+            tags.add("configured-filename-list")
+            boot = False
+        else:
+            barrier_or_not(rng, ops, qs)
+    if not any(t.startswith("between:") for t in tags):
+        tags.add("between:nothing")
+    again(rng, ops, first, tags)
+    if boot:
+        ops.append("B")
+        tags.add("configured-filename-list")
+    ops += qs
+    # ... and once more, or another file of the case again
+    if rng.chance(35):
+        again(rng, ops, rng.below(nfiles) if rng.chance(50) else first, tags)
+        ops += qs
+    ops += queries(rng, rng.range(0, 2))
+    case = ";".join(ops)
+    REPEAT_TAGS[case] = sorted(tags)
+    return case
+
+
+def gen_tree(rng):
+    """files of EQUAL NAME in different directories of update_path, each announcing the same prefixes with other attributes
+    (or holding something else altogether): which routes arrive says which file was imported"""
+    ops, tags = [], {"tree:equal-names"}
+    fam = rng.below(2)
+    p = rng.below(NPEERS)
+    x = rng.below(6)
+    base = rng.below(2)
+    comp = rng.choice("pgb")
+    subs = SUBS[:]
+    subs.sort(key=lambda _: rng.below(1000))
+    subs = subs[:rng.range(2, 4)]
+    if "-" not in subs and rng.chance(60):
+        subs[0] = "-"           # the name also exists directly in update_path
+    boot = rng.chance(25)
+    for i, sub in enumerate(subs):
+        ops.append("F %s %s %d" % (comp if rng.chance(85) else rng.choice("pgb"), sub, base))
+        r = rng.below(100)
+        if r < 70:
+            ops.append("M %d %d %d %d %d %d -" % (variant(rng, p), p, fam, (i + 1) % 10, x, fam))
+        elif r < 85:
+            ops.append("M %d %d %d 0 - %d %d" % (variant(rng, p), p, fam, fam, x))
+        else:
+            q = rng.below(NPEERS)
+            ops += ["I %d" % q, "T %d %d 0:%d" % (fam, x, (i + 5) % 10)]
+        if boot and i == len(subs) - 1:
+            ops.append("B")
+            tags.add("configured-filename-list")
+        elif rng.chance(50):
+            ops.append("Q %d %d" % (fam, x))
+    ops.append("Q %d %d" % (fam, x))
+    for _ in range(rng.range(1, 4)):
+        k = rng.below(len(subs))
+        ops.append("R %d %d" % (k, rng.below(4)))
+        tags.add("again:same-path")
+        if rng.chance(70):
+            ops.append("Q %d %d" % (fam, x))
+    if rng.chance(30):
+        # one of the paths is written again (a mirror job replacing latest-update), then queued
+        k = rng.below(len(subs))
+        ops += ["F %s %s %d" % (comp, subs[k], base), "M %d %d %d %d %d %d -" % (variant(rng, p), p, fam, 9, x, fam)]
+        tags.add("tree:path-written-again")
+        if rng.chance(50):
+            ops.append("R %d %d" % (rng.below(len(subs)), rng.below(4)))
+    ops.append("Q %d %d" % (fam, x))
+    case = ";".join(ops)
+    REPEAT_TAGS[case] = sorted(tags)
+    return case
+
+
+def sprinkle(rng, case):
+    """any generated case: now and then one of its files comes again somewhere behind it / its first barrier is the start-up list"""
+    ops = case.split(";")
+    starts = [i for i, o in enumerate(ops) if o.startswith(("F ", "X "))]
+    tags = set()
+    if starts and rng.chance(12):
+        k = rng.below(len(starts))
+        # behind file k: in front of any later file start, or at the end of the files
+        cands = [i for i in starts[k + 1:]] + [max(i for i, o in enumerate(ops) if not o.startswith("Q")) + 1]
+        at = rng.choice(cands)
+        ops.insert(at, "R %d" % k if rng.chance(60) else "C %d" % k)
+        tags.add("again:sprinkled")
+    if rng.chance(8):
+        bars = [i for i, o in enumerate(ops) if o.startswith(("W", "Q"))]
+        if bars:
+            ops.insert(bars[0], "B")
+            tags.add("configured-filename-list")
+    if rng.chance(10):
+        # its files live in sub-directories
+        for i in starts:
+            if ops[i].startswith("F ") and len(ops[i].split()) == 2 and rng.chance(60):
+                ops[i] += " %s %d" % (rng.choice(SUBS), 10 + i)
+        tags.add("tree:sub-directories")
+    case = ";".join(ops)
+    if tags:
+        REPEAT_TAGS[case] = sorted(tags)
+    return case
+
+
 def gen(rng, tier):
     n = 4000 if tier == "quick" else 40000
     # one case in five also takes UPDATEs as octets: from C04's proved encoder and malformed variants (half-malformed above all)
     rawn = [i for i in range(n) if i % 5 == 1]
     hexes = dict(zip(rawn, encode_raw(rng.fork("enc"), [raw_plan16(rng.fork("raw%d" % i)) for i in rawn])))
     for i in range(n):
+        if i % 10 in (2, 5):
+            r2 = rng.fork("rep%d" % i)
+            yield gen_tree(r2) if i % 20 == 5 else gen_repeat(r2)
+            continue
         kind = "clean" if i % 10 < 7 else ("redump" if i % 10 < 9 else "stop")
-        yield gen_case(rng, kind, raw=hexes.get(i) or None)
+        yield sprinkle(rng.fork("spr%d" % i), gen_case(rng, kind, raw=hexes.get(i) or None))
 
 
 def nontrivial(case, out):
@@ -210,6 +410,16 @@ def classify(case, out):
             continue
         if o[0] == "F":
             ks.append({"p": "plain", "g": "gzip", "b": "bzip2"}[o[1]])
+            if len(o) >= 4 and o[2] != "-":
+                ks.append("file-in-sub-directory")
+        elif o[0] == "R":
+            ks.append("entry-again:same-path")
+            if len(o) > 2 and o[2] != "0":
+                ks.append("request-spelled:" + {"1": "./path", "2": "dir/../dir/name", "3": "dir//name"}[str(int(o[2]) % 4)])
+        elif o[0] == "C":
+            ks.append("entry-again:same-content-other-name")
+        elif o[0] == "B":
+            ks.append("start-up-filename-list")
         elif o[0] == "X":
             ks.append("unreadable-file")
         elif o[0] == "I":
@@ -224,6 +434,7 @@ def classify(case, out):
                 ks.append("non-update-message")
         elif o[0] == "N":
             ks.append("foreign-record")
+    ks += REPEAT_TAGS.get(case, [])
     ks = sorted(set(ks))
     if any(t.startswith("w:") for t in toks):
         ks.append("withdraw-left-gate")
@@ -268,6 +479,26 @@ def corpus():
         "F p;MB 4 0 ffffffffffffffffffffffffffffffff004a020004180a0909002f4001010040020602010000fde9800e1f0002011020010db8000000000000000000000001004020010db800000001c8;S 4 0 6 1;MB 4 1 ffffffffffffffffffffffffffffffff003f02000000244001010040020602010000fde9400304c0000201800f0d0002014020010db800000001c8180a0908;S 4 1 6 1;M 4 2 0 4 1 0 -;S 4 2 6 1;Q 0 1",
         # the same UPDATEs in AS2 / _ET records of other peers, a good UPDATE from the wire (withdraw .9, announce .8) behind them
         "F g;MB 2 0 ffffffffffffffffffffffffffffffff003302000000144001010040020602010000fde9400304c0000201180a0908180a0909;MB 14 3 ffffffffffffffffffffffffffffffff003f02000000244001010040020602010000fde9400304c0000201800f0d0002014020010db800000001c8180a0908;MB 12 2 ffffffffffffffffffffffffffffffff004a020004180a0909002f4001010040020602010000fde9800e1f0002011020010db8000000000000000000000001004020010db800000001c8;MB 4 0 ffffffffffffffffffffffffffffffff003302000000144001010040020602010000fde9400304c0000201180a0908180a0909;MB 4 0 ffffffffffffffffffffffffffffffff0033020004180a090900144001010040020602010000fde9400304c0000201180a0908;QX 0 24/0a0908;QX 0 24/0a0909",
+        # the queue holds names and every entry is imported when its turn comes (seed C16-c2: a loop that skips what it has "imported
+        # before"): A = announce, B = withdraw; A, B, A ends with the route active - same path again / same octets under another name /
+        # one batch / one request after the other / A and B from the configured filename list at start-up
+        "F p;M 4 0 0 3 5 0 -;F p;M 4 0 0 0 - 0 5;R 0;Q 0 5",
+        "F p;M 4 0 0 3 5 0 -;Q 0 5;F p;M 4 0 0 0 - 0 5;Q 0 5;C 0;Q 0 5",
+        "F g;M 4 0 0 3 5 0 -;F b;M 4 0 0 0 - 0 5;B;Q 0 5;R 0 1;Q 0 5;R 1;Q 0 5;R 0;R 1;R 0;Q 0 5",
+        # ... with a change of attributes in between; with nothing in between (the Bulk leaves the gate twice)
+        "F p;M 14 3 1 3 1,2 1 -;F p;M 14 3 1 4 1,2 1 -;R 0;Q 1 1;Q 1 2",
+        "F p;M 4 0 0 3 5 0 -;R 0;C 0;Q 0 5",
+        # ... a dump that comes again after its peer went down (fresh ids again: finding C16-1; the entries must arrive again)
+        "F b;I 0;T 0 5 0:3;F p;S 4 0 6 1;R 0;Q 0 5",
+        "F b;I 0,3;T 0 5 0:3,1:4;W;F p;M 4 0 0 0 - 0 5;W;C 0;Q 0 5",
+        # ... an unreadable entry again, the start-up list with a repeat in it
+        "X g;F p;M 4 0 0 3 1 0 -;R 0;R 1;X m;R 3;Q 0 1",
+        "F p;M 4 0 0 3 5 0 -;F p;M 4 0 0 0 - 0 5;R 0;B;Q 0 5",
+        # the file that is imported is the one the request names, every component of it (seed C16-c1: only the last one): equal
+        # names in update_path, a/, a/b/ and b/ holding other files; every spelling of the request; a path written again
+        "F p - 0;M 4 0 0 1 5 0 -;F p a 0;M 4 0 0 2 5 0 -;F p a.b 0;M 4 0 0 3 5 0 -;F p b 0;M 4 0 0 0 - 0 5;Q 0 5;R 1;Q 0 5;R 2 2;Q 0 5;R 0 1;Q 0 5;R 1 3;Q 0 5;R 3;Q 0 5",
+        "F g a 1;M 4 1 0 1 5 0 -;F g b 1;M 4 1 0 2 5 0 -;Q 0 5;R 0 2;Q 0 5;R 1 3;R 0;Q 0 5",
+        "F p a 0;M 4 0 0 1 5 0 -;F p - 0;I 2;T 0 5 0:7;B;Q 0 5;R 0;Q 0 5;F p a 0;M 4 0 0 9 5 0 -;R 0 2;Q 0 5",
         # known finding C16-3 (= C03-1): session back up after Established->Idle, re-announcement stays withdrawn
         "F p;M 4 0 0 3 1 0 -;S 4 0 6 1;S 4 0 1 6;M 4 0 0 4 1 0 -;Q 0 1",
     ]
@@ -288,7 +519,9 @@ LEVEL_TEXT = ("Theorems over all files / queues of the model of process_file and
               "Singles in file order carrying fresh, distinct ids that stand for their index entry's peer, and an empty RIB then holds exactly "
               "those entries; BGP4MP records are applied in file order, each UPDATE as one Bulk attributed to the id that from then on is the "
               "only answer for (unit, address, AS), stable and unambiguous over any queue of update files; queue order; an unreadable file "
-              "is as if never queued; Established->Idle withdraws exactly the found id's routes; an UPDATE is applied all or nothing on the octets of the "
+              "is as if never queued; the queue holds names and every entry is imported when its turn comes - register and RIB after a queue are the fold of the "
+              "per-entry effects over all entries, repeats included, a file that comes again is processed again and each of its UPDATEs leaves the gate "
+              "again, the file imported is the one the whole path names; Established->Idle withdraws exactly the found id's routes; an UPDATE is applied all or nothing on the octets of the "
               "record (C04's decoder: undecodable = no update and an untouched register, decodable = one Bulk with every route event) and an undecodable one "
               "is as if it were not in the file, for the update stream, the RIB and the property's reading over any queue; refutations for a peer named by two index "
               "entries and for dump+update records in one file (known findings). Kernel-checked, axiom-free; tied to the real unit by "
